@@ -10,6 +10,9 @@ DEDICATED = [
     # lint attributes of the user and generated code (hunt 3): an expectation fulfilled by the item itself, forbid of a lint the generator
     # used to allow, a diverging default value, allow(warnings) on a field of a deprecated type, lint attributes on a user-written operator impl
     ("crate_path_siblings_on_enum_and_struct", "#[derive_ex::derive_ex(Debug)]\n#[derive_ex::derive_ex(Clone)]\n#[::derive_ex::derive_ex(PartialEq, Default)]\npub enum X { #[default] A, B(u8) }\n#[derive_ex::derive_ex(Debug)]\n#[derive_ex::derive_ex(Clone)]\n#[::derive_ex::derive_ex(PartialEq, Default)]\npub struct Y { pub a: u8 }\n#[derive_ex::derive_ex(Hash)]\n/// doc between\n#[derive_ex::derive_ex(PartialEq, Eq)]\npub enum Z<T> { A { #[eq(key = crate::support::gk(&$))] a: T }, B }"),
+    ("default_on_reference_field", "#[derive_ex::derive_ex(Default, Clone, Debug)]\npub struct X<'a, T>(pub &'a T, pub Option<&'a T>);\n#[derive(derive_ex::Ex)]\n#[derive_ex(Default)]\npub enum E<'a, T> { A, #[default] B { r: &'a [T] } }"),
+    ("nested_self_in_type_macro_of_user_impl", "macro_rules! pair { ($t:ty) => { $t }; }\nmacro_rules! arr { ([$t:ty; $n:expr]) => { [$t; $n] }; }\n#[derive(Clone)]\npub struct P(pub u8);\n#[derive_ex::derive_ex(Sub)]\nimpl core::ops::Sub<P> for P { type Output = pair!((Self, Self)); fn sub(self, r: P) -> (P, P) { (self, r) } }\n#[derive(Clone)]\npub struct Q(pub u8);\n#[derive_ex::derive_ex(Add)]\nimpl core::ops::Add<Q> for Q { type Output = arr!([Self; 2]); fn add(self, r: Q) -> [Q; 2] { [self, r] } }\npub fn forms(a: P, b: P, c: Q, d: Q) -> ((P, P), [Q; 2]) { (&a - &b, &c + d) }"),
+    ("value_names_of_generated_params", "#[allow(non_camel_case_types)]\n#[derive(Clone)]\npub struct rhs;\n#[allow(non_camel_case_types)]\n#[derive_ex::derive_ex(Add)]\nimpl core::ops::AddAssign<u8> for rhs { fn add_assign(&mut self, _r: u8) {} }\n#[allow(non_upper_case_globals)]\npub const lhs: u8 = 1;\n#[allow(non_upper_case_globals)]\npub const this: u8 = 2;\n#[allow(non_upper_case_globals)]\npub const other: u8 = 3;\n#[derive_ex::derive_ex(Mul, MulAssign)]\nimpl core::ops::Mul<u8> for P2 { type Output = P2; fn mul(self, _r: u8) -> P2 { self } }\n#[derive(Clone)]\npub struct P2;"),
     ("expect_deprecated_on_field", "#[deprecated]\n#[derive(Clone, Debug, PartialEq, Default)]\npub struct Old(pub u8);\n#[derive_ex::derive_ex(Clone, Debug, PartialEq, Default)]\npub struct X { #[expect(deprecated)] pub a: Old, pub b: u8 }\n#[derive(derive_ex::Ex)]\n#[derive_ex(Clone, PartialEq, Debug)]\npub enum E { A(#[expect(deprecated)] Old), B }"),
     ("forbid_deprecated_without_deprecated", "#[forbid(deprecated)]\n#[derive_ex::derive_ex(Clone, Debug, PartialEq, Default, Add, Not)]\npub struct X(pub u8);\n#[warn(deprecated)]\n#[deny(warnings)]\n#[derive(derive_ex::Ex)]\n#[derive_ex(Clone, PartialEq, Hash)]\npub enum E { A, B(u8) }"),
     ("expect_on_item", "#[expect(non_camel_case_types)]\n#[derive_ex::derive_ex(Clone, Debug, Default, PartialEq, Eq, PartialOrd, Ord, Hash)]\npub struct my_type { pub a: u8 }\n#[derive(derive_ex::Ex)]\n#[derive_ex(Clone, PartialEq)]\n#[expect(non_camel_case_types)]\npub enum my_enum { A, B(u8) }"),
